@@ -1,0 +1,29 @@
+//go:build verif && (verif_all || verif_c19)
+// +build verif
+// +build verif_all verif_c19
+
+package gocql
+
+// Verification hooks (build tag `verif`) for C19 (UUIDs): access to the two package-level
+// variables the time-UUID generator reads, and to getTimestamp. Add-only.
+
+import (
+	"sync/atomic"
+	"time"
+)
+
+// VerifSetClockSeq stores v in the process-wide clock sequence counter.
+func VerifSetClockSeq(v uint32) { atomic.StoreUint32(&clockSeq, v) }
+
+// VerifClockSeq returns the current value of the clock sequence counter.
+func VerifClockSeq() uint32 { return atomic.LoadUint32(&clockSeq) }
+
+// VerifSetHardwareAddr replaces the node id used by UUIDFromTime and returns the previous one.
+func VerifSetHardwareAddr(b []byte) []byte {
+	old := hardwareAddr
+	hardwareAddr = b
+	return old
+}
+
+// VerifGetTimestamp exposes getTimestamp.
+func VerifGetTimestamp(t time.Time) int64 { return getTimestamp(t) }
